@@ -174,20 +174,24 @@ func handleFacts(p *pkg, f *facts) {
 		if !strings.HasPrefix(name, "NFSProcedureHandler.handle") || fd.Body == nil {
 			continue
 		}
+		// a `node, ok := h.lookupNode(...)` assignment must be followed at once by `if !ok { ... NFSERR_STALE ... }`
 		ast.Inspect(fd.Body, func(node ast.Node) bool {
-			is, ok := node.(*ast.IfStmt)
+			bs, ok := node.(*ast.BlockStmt)
 			if !ok {
 				return true
 			}
-			c := exprString(p.fset, is.Cond)
-			if c != "!ok" {
-				return true
-			}
-			// must be preceded by a lookupNode assignment: check the body returns a STALE helper
-			body := exprString(p.fset, is.Body)
-			if strings.Contains(body, "nfsError") {
+			for i, st := range bs.List {
+				as, ok := st.(*ast.AssignStmt)
+				if !ok || !strings.Contains(exprString(p.fset, as), "lookupNode(") {
+					continue
+				}
 				n++
-				if !strings.Contains(body, "NFSERR_STALE") {
+				if i+1 >= len(bs.List) {
+					all = false
+					continue
+				}
+				is, ok := bs.List[i+1].(*ast.IfStmt)
+				if !ok || !strings.HasPrefix(squeeze(exprString(p.fset, is.Cond)), "!ok") || !strings.Contains(exprString(p.fset, is.Body), "NFSERR_STALE") {
 					all = false
 				}
 			}
